@@ -53,6 +53,8 @@ def run(ctx):
     exhaustion_rule(ctx)
     from .c14 import stats_every_record
     stats_every_record(ctx, "C16.Q")
+    from . import c06
+    c06.reader_deps(ctx, "C16")
     # empty input on the mmap path: the mapping has length 0, so no unconditional write may touch it
     from . import c05
     fb, fm = ctx.view(c05.BATCH), ctx.view(c05.MMAP)
